@@ -46,6 +46,7 @@ type verifC27State struct {
 	paths   []string
 	cur     []byte
 	curPath string
+	gated   bool
 }
 
 var verifC27 verifC27State
@@ -69,7 +70,7 @@ func verifC27Start(sid int) {
 	id[0], id[1] = byte(sid>>8), byte(sid)
 	s.rec = &recorder.VerifRec{
 		Dir: s.dir, PathName: "p", SegmentDuration: s.segDur, PartDuration: s.partDur, Tracks: s.tracks,
-		StreamID: id, OnCreate: func(p string) { s.paths = append(s.paths, p) },
+		StreamID: id, OnCreate: func(p string) { s.paths = append(s.paths, p) }, Gated: s.gated,
 	}
 	s.rec.Start()
 }
@@ -119,6 +120,13 @@ func verifC27Describe(b []byte) string {
 }
 
 func verifC27SampleID(p []byte) int {
+	// gated mode: AV1 temporal unit = [sequence header OBU] frame OBU, each with a size field
+	if len(p) > 2 && p[0] == 0x0a && int(p[1])+2 <= len(p) {
+		p = p[2+int(p[1]):]
+	}
+	if len(p) > 2 && p[0] == 0x32 {
+		p = p[2:]
+	}
 	if len(p) < 4 {
 		return -1
 	}
@@ -173,6 +181,7 @@ func verifC27Exec(op string) string {
 		for _, t := range strings.Split(f[3], ",") {
 			s.tracks = append(s.tracks, recorder.VerifTrack{Video: t[0] == 'v', ClockRate: verifutil.Atoi(t[1:])})
 		}
+		s.gated = len(f) > 5 && f[5] == "g"
 		verifC27Start(verifutil.Atoi(f[4]))
 		return "ok"
 
@@ -345,6 +354,16 @@ func verifC27Served(out []byte) string {
 // ---------- generator ----------
 
 func verifC27Gen(r *verifutil.Rand, i int, thorough bool) []string {
+	return verifC27GenMode(r, i, thorough, false)
+}
+
+// plain = only the ordinary recordings (used by C29, whose model does not cover file-name collisions);
+// otherwise 1 history in 2 is one of the scenarios of notes/C27.md:
+//   5,6 gated (real per-codec callbacks, AV1 + Opus), one or two video tracks, leading non-key frames
+//   7   one track (audio) runs > 1 s ahead of the video track
+//   8   the first key frame is older than the segment that audio has already opened
+//   9   segmentDuration < 1 s and a stalled track: consecutive segments get the same start time / file name
+func verifC27GenMode(r *verifutil.Rand, i int, thorough bool, plain bool) []string {
 	type trk struct {
 		video bool
 		rate  int
@@ -354,17 +373,34 @@ func verifC27Gen(r *verifutil.Rand, i int, thorough bool) []string {
 		n     int
 	}
 	var trs []*trk
-	switch r.Intn(6) {
-	case 0:
-		trs = []*trk{{video: false, rate: 48000}}
-	case 1:
-		trs = []*trk{{video: true, rate: 90000}}
-	case 2, 3:
+	sc := 0
+	if !plain {
+		sc = r.Intn(10)
+	}
+	gated := sc == 5 || sc == 6 || ((sc == 7 || sc == 8) && r.Bool())
+	switch {
+	case sc == 5:
 		trs = []*trk{{video: true, rate: 90000}, {video: false, rate: 48000}}
-	case 4:
-		trs = []*trk{{video: false, rate: 44100}, {video: true, rate: 90000}}
+	case sc == 6:
+		trs = []*trk{{video: true, rate: 90000}, {video: true, rate: 90000}, {video: false, rate: 48000}}
+		if r.Bool() {
+			trs = trs[:2]
+		}
+	case sc >= 7:
+		trs = []*trk{{video: true, rate: 90000}, {video: false, rate: 48000}}
 	default:
-		trs = []*trk{{video: true, rate: 90000}, {video: false, rate: 8000}, {video: false, rate: 48000}}
+		switch r.Intn(6) {
+		case 0:
+			trs = []*trk{{video: false, rate: 48000}}
+		case 1:
+			trs = []*trk{{video: true, rate: 90000}}
+		case 2, 3:
+			trs = []*trk{{video: true, rate: 90000}, {video: false, rate: 48000}}
+		case 4:
+			trs = []*trk{{video: false, rate: 44100}, {video: true, rate: 90000}}
+		default:
+			trs = []*trk{{video: true, rate: 90000}, {video: false, rate: 8000}, {video: false, rate: 48000}}
+		}
 	}
 	var tspec []string
 	for _, t := range trs {
@@ -377,12 +413,31 @@ func verifC27Gen(r *verifutil.Rand, i int, thorough bool) []string {
 		t.step = ms * int64(t.rate) / 1000
 		t.gop = 1 + r.Intn(6)
 		t.dts = int64(r.Intn(3)) * int64(t.rate) / 10
+		if gated && t.video {
+			t.n = r.Intn(t.gop) // the stream may start in the middle of a GOP: the gate drops those frames
+		}
+	}
+	switch sc {
+	case 7:
+		trs[1].dts = int64(1200+r.Intn(1500)) * 48 // audio ahead by 1.2 .. 2.7 s
+	case 8:
+		trs[0].dts, trs[0].n = 0, 0
+		trs[1].dts = int64(300+r.Intn(500)) * 48
+	case 9:
+		trs[0].gop, trs[0].step = 1, int64(60+r.Intn(80))*90
 	}
 	// >= 1.2 s and gaps <= 0.4 s: see notes/C27.md (two consecutive segments can get the same start time, hence the
 	// same file name, when a track lags by about segmentDuration <= 1 s; the recorder then overwrites the first)
 	segDur := []int{1200, 1500, 2000, 3000}[r.Intn(4)]
+	if sc == 9 {
+		segDur = []int{300, 400, 500}[r.Intn(3)]
+	}
 	partDur := []int{50, 100, 200, 400}[r.Intn(4)]
-	ops := []string{fmt.Sprintf("reset %d %d %s %d", segDur, partDur, strings.Join(tspec, ","), 1+r.Intn(1000))}
+	mode := ""
+	if gated {
+		mode = " g"
+	}
+	ops := []string{fmt.Sprintf("reset %d %d %s %d%s", segDur, partDur, strings.Join(tspec, ","), 1+r.Intn(1000), mode)}
 
 	total := 12 + r.Intn(70)
 	if thorough {
@@ -403,6 +458,24 @@ func verifC27Gen(r *verifutil.Rand, i int, thorough bool) []string {
 		if r.Chance(1, 6) {
 			best = r.Intn(len(trs))
 		}
+		switch {
+		case sc == 7: // every track on its own timeline, round robin
+			best = n % len(trs)
+		case sc == 8: // audio opens the segment, then the (older) video arrives
+			if n < 3 {
+				best = 1
+			} else {
+				best = n % len(trs)
+			}
+		case sc == 9: // one audio sample, then the audio track stalls while key frames keep coming
+			if n == 0 {
+				best = 1
+			} else if !r.Chance(1, 12) {
+				best = 0
+			} else {
+				best = 1
+			}
+		}
 		t := trs[best]
 		flag := "k"
 		if t.video && t.n%t.gop != 0 {
@@ -410,13 +483,14 @@ func verifC27Gen(r *verifutil.Rand, i int, thorough bool) []string {
 		}
 		dts := t.dts
 		switch {
+		case sc >= 7:
 		case r.Chance(1, 40) && dts > t.step*3: // goes backwards (duration < 0 path)
 			dts -= t.step * 2
 		case r.Chance(1, 60): // a gap
 			t.dts += int64(t.rate) * int64(100+r.Intn(300)) / 1000
 			dts = t.dts
 		}
-		if r.Chance(1, 150) {
+		if sc < 7 && r.Chance(1, 150) {
 			ntpSkew += int64(5500 + r.Intn(3000)) // NTP jump > tolerance: the writer resets
 		}
 		ntp := dts*1000/int64(t.rate) + ntpSkew + int64(r.Intn(3))
@@ -427,7 +501,7 @@ func verifC27Gen(r *verifutil.Rand, i int, thorough bool) []string {
 		if r.Chance(1, 25) {
 			t.dts += int64(r.Intn(int(t.step)))
 		}
-		if !restarted && r.Chance(1, 80) {
+		if sc < 7 && !restarted && r.Chance(1, 80) {
 			restarted = true
 			ops = append(ops, fmt.Sprintf("restart %d", 1001+r.Intn(1000)))
 			// a new instance: the next segment name must differ, move the clock on
@@ -453,7 +527,7 @@ func verifC27Gen(r *verifutil.Rand, i int, thorough bool) []string {
 	// crash images of one or two files: every byte offset around and inside the parts
 	for k := 0; k < 2; k++ {
 		ops = append(ops, fmt.Sprintf("file %d", k))
-		ops = append(ops, verifC27CutOps(r, thorough)...)
+		ops = append(ops, verifC27CutOps(r, thorough, sc >= 5)...)
 	}
 	return ops
 }
@@ -461,12 +535,15 @@ func verifC27Gen(r *verifutil.Rand, i int, thorough bool) []string {
 // The cut offsets cannot depend on the file (Gen does not see it): offsets are generated densely over a range
 // that covers header end + parts of the small recordings; offsets beyond the file are clamped by Exec and by the
 // model alike.
-func verifC27CutOps(r *verifutil.Rand, thorough bool) []string {
+func verifC27CutOps(r *verifutil.Rand, thorough bool, short bool) []string {
 	var ops []string
 	start := 560 + r.Intn(200)
 	span := 450
 	if thorough {
 		span = 2500
+	}
+	if short {
+		span /= 4
 	}
 	step := 1
 	for k := start; k < start+span; k += step {
